@@ -210,7 +210,11 @@ class _Run:
         seed = sc.get('seed', 1)
         fk = sc['fault']['kind']
         if sc['via'] != 'api':
-            _write_cart(t(self.inp), self._game(version=33))
+            if fk == 'input-bad':
+                # an input cart whose Lua does not parse: process_game_files reports it and writes nothing
+                fsx.write_file(t(self.inp), b'pico-8 cartridge // http://www.pico-8.com\nversion 33\n__lua__\nx = = 1 )\n__gfx__\n')
+            else:
+                _write_cart(t(self.inp), self._game(version=33))
         if sc['via'].startswith('build'):
             _write_p8(t(self.src), _mk_game(seed + 1, 'small', label=False))
         if self.dest != self.inp:
@@ -423,7 +427,8 @@ def _model_req(case, obs, r):
         lbl = fsx.hx(obs['label_file']) if obs['label_file'] else '~'
         return 'tofile %s %s %s %s %s' % (fsx.hx(obs['dest']), ex, lbl, _ints(chunks), fail)
     if via in ('writep8', 'luamin', 'luafmt', 'luafmt-overwrite'):
-        return 'proc %d %s ~ 1 %s %s %s' % (1 if via == 'luafmt-overwrite' else 0, fsx.hx(obs['inp']), ex, _ints(chunks), fail)
+        return 'proc %d %s ~ %d %s %s %s' % (1 if via == 'luafmt-overwrite' else 0, fsx.hx(obs['inp']),
+                                             0 if fk == 'input-bad' else 1, ex, _ints(chunks), fail)
     if via == 'build-own':
         return 'build %s %s %s 1 %s %s' % (fsx.hx(obs['dest']), ex, fsx.hx(obs['src']), _ints(chunks), fail)
     if via == 'build-self':
@@ -601,6 +606,10 @@ def generate(tier, rng):
                     cases.append(_sc('api', fmt, ex, 'small', {'kind': 'version', 'v': 256}, seed=seed))
                     cases.append(_sc('api', fmt, ex, 'small', {'kind': 'version', 'v': 1000}, seed=seed))
                     cases.append(_sc('api', fmt, ex, 'small', {'kind': 'label-unreadable', 'how': 'explicit'}, seed=seed))
+            if fmt == 'p8':
+                for via in ('writep8', 'luamin', 'luafmt', 'luafmt-overwrite'):
+                    for ex in (True, False):
+                        cases.append(_sc(via, fmt, ex, 'small', {'kind': 'input-bad'}, seed=seed))
             if fmt == 'png':
                 cases.append(_sc('api', fmt, True, 'small', {'kind': 'label-unreadable', 'how': 'dest-garbage'}, seed=seed))
                 for via in ('writep8', 'luamin', 'luafmt', 'luafmt-overwrite'):
@@ -656,7 +665,7 @@ def run_cases(cases, ctx):
     for c, o in zip(cases, obs):
         for r in o.get('runs', []):
             runs += 1
-            failed = r['raised'] is not None and ',E' not in r['trace'] and not r['trace'].startswith('E')
+            failed = (r['raised'] is not None or c['fault']['kind'] == 'input-bad') and ',E' not in r['trace'] and not r['trace'].startswith('E')
             h = '%s/%s/%s dest-%s -> %s' % (c['via'], c['fmt'], c['fault']['kind'], 'exists' if r['existed'] else 'absent',
                                              ('failed:' + r['raised']) if r['raised'] else 'written')
             hist[h] = hist.get(h, 0) + 1
